@@ -347,7 +347,19 @@ func runC06(c *Ctx) {
 				}
 			}
 		}
-		c.Require("C06.R4 duplicate-test-exhaustive", key, p.Pos(fn.Pos()), "the membership test answers false only when no pooled commit matched", len(loops) >= 1 && bad == "", bad)
+		// or no scan of its own at all: the answer is a library search over the whole list
+		libSearch := false
+		if len(loops) == 0 {
+			for _, r := range Returns(fn) {
+				if len(r.Results) == 1 {
+					t := T(r.Results[0]).String()
+					if (strings.Contains(t, "slices.ContainsFunc[") || strings.Contains(t, "slices.IndexFunc[") || strings.Contains(t, "slices.ContainsFunc(") || strings.Contains(t, "slices.IndexFunc(")) && strings.Contains(t, "(p0") {
+						libSearch = true
+					}
+				}
+			}
+		}
+		c.Require("C06.R4 duplicate-test-exhaustive", key, p.Pos(fn.Pos()), "the membership test answers false only when no pooled commit matched", (len(loops) >= 1 || libSearch) && bad == "", bad)
 	}
 
 	// ---- R3 alignment and comparator agreement
